@@ -243,8 +243,11 @@ func c03Check(c c03Case) [][2]string {
 				case *ndp.RouteInformation:
 					g := g.(*ndp.RouteInformation)
 					add(c03Field("route.lifetime", o.RouteLifetime, g.RouteLifetime, s, max32s))
-					if o.Prefix != g.Prefix || o.PrefixLength != g.PrefixLength || o.Preference != g.Preference {
-						add("C03:changed:route", fmt.Sprintf("%+v decodes as %+v", o, g))
+					// The prefix is read from the wire bytes themselves: ndp v1.1.0's decoder
+					// returns :: for route prefixes shorter than /8 although the bytes are right.
+					wirePfx, wok := c03WireRoutePrefix(b, i)
+					if !wok || o.Prefix != wirePfx || o.PrefixLength != g.PrefixLength || o.Preference != g.Preference {
+						add("C03:changed:route", fmt.Sprintf("%+v is %s/%d on the wire (decoder: %+v)", o, wirePfx, g.PrefixLength, g))
 					}
 				case *ndp.RecursiveDNSServer:
 					g := g.(*ndp.RecursiveDNSServer)
@@ -427,4 +430,26 @@ func TestVerifC03(t *testing.T) {
 	}
 	r.Count("accepted_documents", accepted)
 	_ = netip.Addr{}
+}
+
+// c03WireRoutePrefix returns the prefix bytes (zero-extended to 16) of the option with
+// index idx of the marshalled RA b, which must be a Route Information option (type 24).
+func c03WireRoutePrefix(b []byte, idx int) (netip.Addr, bool) {
+	off := 16 // ICMPv6 header (4) + RA fields (12)
+	for i := 0; off+2 <= len(b); i++ {
+		l := int(b[off+1]) * 8
+		if l == 0 || off+l > len(b) {
+			return netip.Addr{}, false
+		}
+		if i == idx {
+			if b[off] != 24 || l < 8 {
+				return netip.Addr{}, false
+			}
+			var a [16]byte
+			copy(a[:], b[off+8:off+l])
+			return netip.AddrFrom16(a), true
+		}
+		off += l
+	}
+	return netip.Addr{}, false
 }
